@@ -2,6 +2,8 @@ package props
 
 import (
 	"fmt"
+	"go/token"
+	"go/types"
 	"sort"
 	"strings"
 
@@ -186,6 +188,10 @@ func edgeKept(ifi *ssa.If, si int, o langOpts) bool {
 			return si == 0
 		}
 		return si == 1
+	}
+	// exhaustive switch over an enum-like named type: the no-match edge is infeasible
+	if si == 1 && enumExhausted(ifi, o.p) {
+		return false
 	}
 	// error test: keep only the nil edge
 	if x, nonNilWhenTrue, ok := nilCmp(ifi.Cond); ok {
@@ -382,4 +388,58 @@ func (d *dfa) sampleWords(n, maxLen int) []string {
 		}
 	}
 	return out
+}
+
+// enumExhausted: ifi tests `x == k` as the last case of a switch chain on x
+// (reached through the false edges of earlier `x == k_i` tests) and the tested
+// constants cover every declared constant of x's named type.
+func enumExhausted(ifi *ssa.If, p *core.Program) bool {
+	bo, ok := ifi.Cond.(*ssa.BinOp)
+	if !ok || bo.Op != token.EQL {
+		return false
+	}
+	named := core.NamedOf(bo.X.Type())
+	if named == nil || named.Obj().Pkg() == nil || !core.IsLib(named.Obj().Pkg()) {
+		return false
+	}
+	tested := map[int64]bool{}
+	b := ifi.Block()
+	x := bo.X
+	for {
+		last, ok := b.Instrs[len(b.Instrs)-1].(*ssa.If)
+		if !ok {
+			break
+		}
+		c, ok := last.Cond.(*ssa.BinOp)
+		if !ok || c.Op != token.EQL || c.X != x {
+			break
+		}
+		k, ok := core.ConstInt(c.Y)
+		if !ok {
+			break
+		}
+		tested[k] = true
+		// predecessor in the chain: single pred whose false edge is b
+		if len(b.Preds) != 1 || len(b.Preds[0].Succs) != 2 || b.Preds[0].Succs[1] != b {
+			break
+		}
+		b = b.Preds[0]
+	}
+	sc := named.Obj().Pkg().Scope()
+	n := 0
+	for _, name := range sc.Names() {
+		cst, ok := sc.Lookup(name).(*types.Const)
+		if !ok || !types.Identical(cst.Type(), named) {
+			continue
+		}
+		v, ok := core.ConstInt(ssa.NewConst(cst.Val(), cst.Type()))
+		if !ok {
+			return false
+		}
+		n++
+		if !tested[v] {
+			return false
+		}
+	}
+	return n > 0
 }
